@@ -1513,7 +1513,10 @@ class C06Checker(Checker):
                 # with it; with several, intermediate batches are gone and the event cannot be
                 # mirrored.
                 w.probes["refill_not_predicted_by_seeded_generator"] += 1
-                if refills > 1:
+                # with an unpredicted generator the number of refills the code really made is
+                # not observable; only events that cannot have needed more than one are redone
+                ptr0 = int(ev.get("ptr", 0))
+                if refills > 1 or total_v > (2048 - min(ptr0, 2048)) + 2048:
                     w.probes["unmirrorable_multi_refill_event"] += 1
                     return
                 m = self.mirror(w, ev, ctx, info, ref, actual_refill=np.array(cur))
